@@ -85,6 +85,11 @@ def main():
             items.append(('q', n, [op, ['v', 'q'], to_json(t)], cxx(t), 'q' + op + '='))
     per = 350
     units = [items[i:i + per] for i in range(0, len(items), per)]
+    # trees with a literal operand next to a class operand: evaluated a second time in units compiled WITH optimisation (k*.cc), where the __GMPXX_CONSTANT shortcuts are live
+    lit = lambda tj: isinstance(tj, list) and len(tj) == 3 and any(isinstance(x, list) and x[0] in ('si', 'ui') for x in tj[1:]) and all((not isinstance(x, list)) or x[0] in ('si', 'ui', 'v', 'neg') for x in tj[1:])
+    kitems = [it for it in items if lit(it[2])]
+    kunits = [kitems[i:i + 120] for i in range(0, len(kitems), 120)]
+    nplain = len(units); units = units + kunits
     hdr = '''#include <cstdio>
 #include <cstdlib>
 #include <string>
@@ -97,7 +102,7 @@ void set_env_z(int vc, mpz_class &a, mpz_class &b, mpz_class &c);
 void set_env_q(int vc, mpq_class &q, mpq_class &r);
 '''
     for ui, unit in enumerate(units):
-        with open(os.path.join(outdir, f'u{ui}.cc'), 'w') as o:
+        with open(os.path.join(outdir, (f'u{ui}.cc' if ui < nplain else f'k{ui}.cc')), 'w') as o:
             o.write(hdr + f'void unit{ui}(int vc) {{\n  mpz_class a, b, c, a0, b0, c0; mpq_class q, r, q0, r0;\n')
             for kind, n, tj, expr, tgt in unit:
                 js = json.dumps(tj, separators=(',', ':')).replace('\\', '\\\\').replace('"', '\\"')
@@ -129,6 +134,6 @@ void set_env_q(int vc, mpq_class &q, mpq_class &r);
         o.write('int main(int argc, char **argv) { out = fopen(argv[1], "w"); int nvc = atoi(argv[2]); if (!out) return 3;\n  for (int vc = 0; vc < nvc; vc++) {\n')
         for ui in range(len(units)): o.write(f'    fprintf(out, "{{\\"e\\":\\"reset\\",\\"drv\\":\\"cxx\\",\\"x\\":%d,\\"seed\\":\\"0\\"}}\\n", vc * 1000 + {ui}); unit{ui}(vc);\n')
         o.write('  }\n  fprintf(out, "{\\"e\\":\\"reset\\",\\"drv\\":\\"cxxconv\\",\\"x\\":0,\\"seed\\":\\"0\\"}\\n"); conv_section();\n  if (argc > 3) { stream_section(argv[3]); mpf_section(); }\n  fclose(out); return 0; }\n')
-    print(len(items), 'expressions in', len(units), 'units')
+    print(len(items), 'expressions in', nplain, 'units;', len(kitems), 'literal-operand expressions again in', len(kunits), 'optimised units')
 
 main()
